@@ -52,6 +52,36 @@ def case : P String := do
     -- associated units and base units, as names
     let su ← unitP SpeedUnit.ofName?
     pure (su.associatedDistanceUnit.name ++ " " ++ su.associatedTimeUnit.name)
+  | "sufrom" => do
+    let du ← unitP DistanceUnit.ofName?; let tu ← unitP TimeUnit.ofName?
+    pure (match SpeedUnit.fromPair du tu with
+      | .unit u => "ok " ++ u.name
+      | .panic => "panic")
+  | "sustr" => do
+    let t ← next
+    -- the text as `x<hex utf8>`
+    let s ← (match t.toList with
+      | 'x' :: r =>
+        let rec bytes : List Char → Option (List UInt8)
+          | [] => some []
+          | a :: b :: rest =>
+            let hv : Char → Option Nat := fun c =>
+              if '0' ≤ c ∧ c ≤ '9' then some (c.toNat - '0'.toNat)
+              else if 'a' ≤ c ∧ c ≤ 'f' then some (c.toNat - 'a'.toNat + 10) else none
+            match hv a, hv b, bytes rest with
+            | some x, some y, some l => some ((x * 16 + y).toUInt8 :: l)
+            | _, _, _ => none
+          | _ => none
+        match bytes r with
+        | some bs => (match String.fromUTF8? (ByteArray.mk bs.toArray) with | some s => pure s | none => failure)
+        | none => failure
+      | _ => failure : P String)
+    pure (match SpeedUnit.fromStr s with
+      | some u => "ok " ++ u.name
+      | none => "err")
+  | "maxhw" => do
+    let su ← unitP SpeedUnit.ofName?
+    pure (floatOut (su.maxHighwaySpeed : Float))
   | _ => failure
 
 def run (line : String) : String := Proto.run case line
